@@ -111,4 +111,51 @@ def reparsable : Parsed → Bool
         | _, _ => false)
      | some _, some _ => false)
 
+/-- the character-level part of `reparsable`: the fields that go to the path of the canonical
+url are `segOk`, those that go to its query are `qvalOk`, and the record has one of the field
+combinations the parser produces -/
+def fieldsOk : Parsed → Bool
+  | .user id h => h.isNone && qvalOk id
+  | .handle h => segOk h
+  | .group id h =>
+    (match id, h with
+     | some g, none => segOk g
+     | none, some g => segOk g
+     | _, _ => false)
+  | .post id pid ph gid gh =>
+    (match pid, ph, gid, gh with
+     | some p, none, none, none => qvalOk p && qvalOk id
+     | none, some x, none, none => segOk x && segOk id
+     | none, none, some g, none => segOk g && segOk id
+     | none, none, none, some g => segOk g && segOk id
+     | _, _, _, _ => false)
+  | .video id pid =>
+    (match pid with
+     | none => qvalOk id
+     | some p => segOk p && segOk id)
+  | .photo id gid pid ph aid =>
+    (match pid, ph with
+     | none, none => photoQueryOk id gid aid
+     | some p, none =>
+       (match gid, aid with
+        | none, some a => segOk p && segOk id && a.all segChar
+        | _, _ => false)
+     | none, some p =>
+       (match gid, aid with
+        | none, some a => segOk p && segOk id && a.all segChar
+        | _, _ => false)
+     | some _, some _ => false)
+
+/-- the two shapes of the known findings that `fieldsOk` does not already exclude: a handle that
+starts with `people` (KF-C19-FB-1: only `facebook.com//people…` gives one) and a photo album
+id that contains `a.` (KF-C19-FB-3) -/
+def findingShape : Parsed → Bool
+  | .handle h => startsWith h (lit "people")
+  | .photo _ _ pid ph aid =>
+    (pid.isSome || ph.isSome) &&
+    (match aid with
+     | some a => contains a (lit "a.")
+     | none => false)
+  | _ => false
+
 end Ural.Facebook
